@@ -500,6 +500,12 @@ def execute(plan, pristine, deep=False):
                     log.append(("run-error", i, q.qid))
                     continue
                 ok = (got == want) if q.order else (sorted(got) == sorted(want))
+                if not ok and last_apply is None:
+                    # no shorthand call anywhere in this query's chain: the reference model
+                    # and the host disagree about the host's own query - a defect of the
+                    # machinery, never of the library
+                    raise RuntimeError("HARNESS: host model mismatch without any shorthand "
+                                       "call: %r expected %r got %r" % (q.chain, want, got))
                 if not ok:
                     viol("wrong-rows", op, expected=want, got=got, ordered=bool(q.order), **ctx)
                 if extra is not None:
